@@ -4,6 +4,7 @@ import SodiumVerif.Spec.Script
 import SodiumVerif.Model.TxnScript
 import SodiumVerif.Model.Conc
 import SodiumVerif.Model.Struct
+import SodiumVerif.Model.SchedApi
 
 open SodiumVerif
 
@@ -34,6 +35,13 @@ partial def structLoop (h : IO.FS.Stream) (out : IO.FS.Stream) (s : Struct.PSt) 
   let (s', o) := Struct.step s line
   out.putStrLn o
   structLoop h out s'
+
+partial def schedApiLoop (h : IO.FS.Stream) (out : IO.FS.Stream) (s : SchedApi.St) : IO Unit := do
+  let line ← h.getLine
+  if line.isEmpty then return ()
+  let (s', o) := SchedApi.step s line
+  out.putStrLn o
+  schedApiLoop h out s'
 
 def concLine (line : String) : String :=
   let parts := (line.splitOn "|").map (·.trimAscii.toString)
@@ -82,4 +90,5 @@ def main (args : List String) : IO UInt32 := do
   | ["txn"] => txnLoop stdin stdout {}; return 0
   | ["conc"] => concLoop stdin stdout; return 0
   | ["struct"] => structLoop stdin stdout {}; return 0
-  | _ => IO.eprintln "usage: driver gc|node|txn|spec|conc|struct < script"; return 2
+  | ["schedapi"] => schedApiLoop stdin stdout {}; return 0
+  | _ => IO.eprintln "usage: driver gc|node|txn|spec|conc|struct|schedapi < script"; return 2
